@@ -119,10 +119,11 @@ class ConcatenatedLazyIndexer(LazyIndexer):
         # Ensure that keep is same length as first-stage data shape (truncate or pad with blanket slices as necessary)
         keep = keep[:ndim] + [slice(None)] * (ndim - len(keep))
         keep_head, keep_tail = keep[0], keep[1:]
-        # Figure out the final shape on the fixed tail dimensions
-        # (dimensions selected by a scalar are dropped from the output, as in the underlying indexers)
+        # Figure out the final shape on the fixed tail dimensions (this also checks every tail index against its axis)
         shape_tails = [len(np.atleast_1d(np.arange(dim_len)[dim_keep]))
-                       for dim_keep, dim_len in zip(keep[1:], self._initial_shape[1:]) if not np.isscalar(dim_keep)]
+                       for dim_keep, dim_len in zip(keep[1:], self._initial_shape[1:])]
+        # Dimensions selected by a scalar are dropped from the output, as in the underlying indexers
+        shape_tails = [dim_len for dim_len, dim_keep in zip(shape_tails, keep[1:]) if not np.isscalar(dim_keep)]
         indexer_starts = np.cumsum([0] + [len(indexer) for indexer in self.indexers[:-1]])
 
         def find_indexer(index):
@@ -169,8 +170,7 @@ class ConcatenatedLazyIndexer(LazyIndexer):
                 indexers = find_indexer(keep_head)
                 local_indices = keep_head - indexer_starts[indexers]
                 # Determine output data shape after second-stage selection
-                final_shape = [len(np.atleast_1d(np.arange(dim_len)[dim_keep]))
-                               for dim_keep, dim_len in zip(keep, self._initial_shape) if not np.isscalar(dim_keep)]
+                final_shape = [len(np.atleast_1d(np.arange(len(self))[keep[0]]))] + shape_tails
                 out_data = np.empty(final_shape, dtype=self.dtype)
                 for ind in range(len(self.indexers)):
                     chunk_mask = (indexers == ind)
